@@ -961,7 +961,7 @@ struct TcpEngine : Engine
 			if (finite_ok && rng.chance(0.6))
 			{
 				double const u = rng.unit();
-				if (u < 0.5) cap = rng.range(min_cap, min_cap * 5);
+				if (u < 0.7) cap = rng.range(min_cap, min_cap * 4);
 				else cap = rng.logu(min_cap, 4000000);
 			}
 			p.cfg[q + "bw"] = bw; p.cfg[q + "lat"] = lat; p.cfg[q + "cap"] = cap;
@@ -1018,7 +1018,7 @@ struct TcpEngine : Engine
 			}
 		}
 		// traffic
-		int64_t const budget_bytes = c06 ? (rng.chance(0.2) ? rng.logu(1, 2000000) : rng.logu(1, 300000)) : rng.logu(1, 200000);
+		int64_t const budget_bytes = c06 ? (rng.chance(0.2) ? rng.logu(1, 2000000) : rng.logu(finite ? 3000 : 1, 300000)) : rng.logu(1, 200000);
 		int const nops = int(rng.range(2, tier ? 40 : 30));
 		int64_t total = 0;
 		int phase_dir = int(rng.below(2));
